@@ -184,8 +184,77 @@ def gen_stream(r, kind, opts):
     return b"".join(parts) + bytes(r.randrange(256) for _ in range(r.choice([1, 10, 100, 400]))), authresp, "random-tail"
 
 
+def scaling_leg(ctx):
+    """"work proportional to the bytes received", measured as CPU time: one message of n items against one of 4n items
+    (sub-rectangle tables, clipboard text, colour maps, raw pixels).  The call counter above cannot see a handler that does
+    a linear amount of copying per item."""
+    import time
+    r = ctx.rng
+    pf = vclient.RGB32
+    hs = b"RFB 003.008\n" + bytes([1, 1]) + struct.pack("!I", 0) + server_init(64, 64, pf, b"s")
+
+    def px():
+        return bytes(r.randrange(256) for _ in range(4))
+
+    def msg(kind, n):
+        if kind == "rre":
+            return struct.pack("!BxH", 0, 1) + struct.pack("!HHHHi", 0, 0, 64, 64, 2) + struct.pack("!I", n) + px() + (px() + struct.pack("!HHHH", 1, 1, 2, 2)) * n
+        if kind == "corre":
+            return struct.pack("!BxH", 0, 1) + struct.pack("!HHHHi", 0, 0, 64, 64, 4) + struct.pack("!I", n) + px() + (px() + bytes([1, 1, 2, 2])) * n
+        if kind == "cuttext":
+            return struct.pack("!BxxxI", 3, 40 * n) + bytes(40 * n)
+        if kind == "colourmap":
+            return struct.pack("!BxHH", 1, 0, min(n, 65535)) + bytes(6 * min(n, 65535))
+        if kind == "raw":
+            h = max(1, (3 * n) // 64)
+            return struct.pack("!BxH", 0, 1) + struct.pack("!HHHHi", 0, 0, 64, h, 0) + bytes(64 * h * 4)
+        # hextile: many 16x16 tiles with coloured sub-rectangles
+        tiles = max(1, n // 60)
+        rows = (tiles + 3) // 4
+        body = b""
+        for _ in range(rows * 4):
+            body += bytes([2 | 8 | 16]) + px() + bytes([60]) + (px() + bytes([0x11, 0x00])) * 60
+        return struct.pack("!BxH", 0, 1) + struct.pack("!HHHHi", 0, 0, 64, 16 * rows, 5) + body
+
+    def cost(kind, n):
+        best = None
+        for _ in range(2):
+            c, trace, zlog = new_client("base")
+            feed_impl(c, trace, [hs])
+            m = msg(kind, n)
+            t0 = time.process_time()
+            try:
+                with Budget(60.0):
+                    c.dataReceived(m + b"\x02")
+            except BaseException as e:  # noqa
+                return None, exc_class(e), len(m)
+            dt = time.process_time() - t0
+            if not trace or trace[-1] != ("cb", "bell"):
+                return None, "not consumed", len(m)
+            best = dt if best is None else min(best, dt)
+        return best, None, len(m)
+
+    for kind in ("rre", "corre", "hextile", "cuttext", "colourmap", "raw"):
+        # sub-rectangle tables: large enough for a per-item copy of the remaining block to dominate the per-item overhead
+        N = (15000 if kind in ("rre", "corre") else 6000) * (1 if ctx.tier == "quick" else 2)
+        t1, e1, b1 = cost(kind, N)
+        t4, e4, b4 = cost(kind, 4 * N)
+        ctx.count("scaling_probes")
+        ctx.case(None, key=("scaling", kind))
+        rp = {"input": {"message": kind, "items": [N, 4 * N], "bytes": [b1, b4]},
+              "how": "CPU time (time.process_time, best of 2) of RFBClient.dataReceived for one message of n and of 4n items followed by a Bell"}
+        if e1 or e4:
+            ctx.violate("spin" if "spin" in (e1, e4) else "scaling-probe-fails", dict(rp, observed="dataReceived failed: %r / %r" % (e1, e4)))
+            continue
+        ctx.stats["scaling_%s_seconds" % kind] = [round(t1, 4), round(t4, 4)]
+        # linear work: t4 ~ (b4/b1) * t1.  Quadratic work: ~ (b4/b1)^2.  Flag when more than 2.2 x the linear prediction (and measurable)
+        if t4 > 0.25 and t4 > 2.2 * (b4 / b1) * max(t1, 0.004):
+            ctx.violate("superlinear-time", dict(rp, observed="%d bytes took %.3f s, %d bytes took %.3f s: %.1f x the time for %.1f x the bytes" % (b1, t1, b4, t4, t4 / max(t1, 1e-9), b4 / b1)))
+
+
 def run(ctx):
     r = ctx.rng
+    scaling_leg(ctx)
     oldlim = limit_memory(3 << 30)
     n = ctx.n(500, 8000)
     lines_all, meta = [], []
